@@ -545,8 +545,6 @@ def known_corr(case, res):
         for r, j in zip(refs, rdocs):
             if j is not None and r != (docs[j].get("name") or docs[j].get("id")):
                 return "C10-extended-condition-prints-reference-as-written"
-    if not case["k"]["finalize"] and any(j is not None and "correlation" in docs[j] for j in rdocs):
-        return "C10-referenced-correlation-always-finalised"
     for it in case["pipe"]:
         if it.get("category"):
             m = [it["category"] in cats_of(docs, j) for j in rdocs if j is not None]
